@@ -91,6 +91,7 @@ inductive Scalar where
   | bool (b : Bool)
   | num (c : String)
   | str (s : String)
+  | vu (s : String)   -- "undefined" / "void"
   | absent          -- "the property is absent" (OptionalProp)
   | other           -- any value of the remaining tags
   deriving DecidableEq, Repr
@@ -105,6 +106,7 @@ def hasScalar (t : SemType) : Scalar → Bool
   | .bool b => subBoolHas t.bool b
   | .num c => subLitHas t.num c
   | .str s => subLitHas t.str s
+  | .vu s => subLitHas t.vu s
   | .absent => t.opt
   | .other => t.other
 
@@ -160,15 +162,16 @@ theorem diff_scalarOnly (a b : SemType) (ha : ScalarOnly a) :
   obtain ⟨rb, hb1, hb2⟩ := subDiff_bool a.bool b.bool
   obtain ⟨rn, hn1, hn2⟩ := subDiff_lit a.num b.num
   obtain ⟨rs, hs1, hs2⟩ := subDiff_lit a.str b.str
+  obtain ⟨rv, hv1, hv2⟩ := subDiff_lit a.vu b.vu
   have hm : subDiff (Bdd.complement fuelB) bddDiff a.mapping b.mapping = some .none := by rw [ha.1]; rfl
   have hl : subDiff (Bdd.complement fuelB) bddDiff a.list b.list = some .none := by rw [ha.2]; rfl
   refine ⟨{ bool := rb, num := rn, str := rs, null := a.null && !b.null, opt := a.opt && !b.opt, mapping := .none,
-            list := .none, other := a.other && !b.other }, ?_, ?_, ?_⟩
+            list := .none, vu := rv, other := a.other && !b.other }, ?_, ?_, ?_⟩
   · unfold diff
-    simp [hb1, hn1, hs1, hm, hl]
+    simp [hb1, hn1, hs1, hv1, hm, hl]
   · exact ⟨rfl, rfl⟩
   · intro v
-    cases v <;> simp [hasScalar, hb2, hn2, hs2]
+    cases v <;> simp [hasScalar, hb2, hn2, hs2, hv2]
 
 /-- a cofinite set of strings is never empty -/
 theorem exists_not_mem (vs : List String) : ∃ s : String, s ∉ vs := by
@@ -236,32 +239,34 @@ theorem subDiff_lit_wf (x y : Sem.Sub LitSet) (hx : WFLit x) (hy : WFLit y) (r :
        rcases a with ⟨aa, va⟩; rcases b with ⟨ab, vb⟩
        cases aa <;> cases ab <;> exact mkLit_wf _ _)
 
-def WF (t : SemType) : Prop := WFLit t.num ∧ WFLit t.str
+def WF (t : SemType) : Prop := WFLit t.num ∧ WFLit t.str ∧ WFLit t.vu
 
 /-- emptiness of a scalar-only, well-formed type vector is decided exactly (for every positive fuel) -/
 theorem isEmpty_scalarOnly (n : Nat) (t : SemType) (c : Ctx) (ht : ScalarOnly t) (hw : WF t) :
     ∃ r, isEmpty (n + 1) t c = some (r, c) ∧ (r = true ↔ ∀ v, hasScalar t v = false) := by
   unfold isEmpty
-  by_cases h : (t.bool != .none || t.num != .none || t.str != .none || t.null || t.opt || t.other) = true
+  by_cases h : (t.bool != .none || t.num != .none || t.str != .none || t.null || t.opt || t.vu != .none || t.other) = true
   · refine ⟨false, by simp only [h, if_true]; rfl, ?_⟩
     constructor
     · intro e; cases e
     · intro hall
       exfalso
       simp only [Bool.or_eq_true, bne_iff_ne, ne_eq] at h
-      rcases h with ((((h | h) | h) | h) | h) | h
+      rcases h with (((((h | h) | h) | h) | h) | h) | h
       · cases hb : t.bool with
         | none => exact h hb
         | all => have := hall (.bool true); simp [hasScalar, hb, subBoolHas] at this
         | some b => have := hall (.bool b); simp [hasScalar, hb, subBoolHas] at this
       · obtain ⟨s, hs⟩ := subLit_inhabited t.num hw.1 h
         have := hall (.num s); simp [hasScalar, hs] at this
-      · obtain ⟨s, hs⟩ := subLit_inhabited t.str hw.2 h
+      · obtain ⟨s, hs⟩ := subLit_inhabited t.str hw.2.1 h
         have := hall (.str s); simp [hasScalar, hs] at this
       · have := hall .null; simp [hasScalar, h] at this
       · have := hall .absent; simp [hasScalar, h] at this
+      · obtain ⟨s, hs⟩ := subLit_inhabited t.vu hw.2.2 h
+        have := hall (.vu s); simp [hasScalar, hs] at this
       · have := hall .other; simp [hasScalar, h] at this
-  · have h' : (t.bool != .none || t.num != .none || t.str != .none || t.null || t.opt || t.other) = false := by
+  · have h' : (t.bool != .none || t.num != .none || t.str != .none || t.null || t.opt || t.vu != .none || t.other) = false := by
       simpa using h
     refine ⟨true, ?_, ?_⟩
     · simp only [h', Bool.false_eq_true, if_false, ht.1, ht.2]
@@ -269,8 +274,8 @@ theorem isEmpty_scalarOnly (n : Nat) (t : SemType) (c : Ctx) (ht : ScalarOnly t)
     · constructor
       · intro _ v
         simp only [Bool.or_eq_false_iff, bne_eq_false_iff_eq] at h'
-        obtain ⟨⟨⟨⟨⟨hb, hn⟩, hs⟩, hnull⟩, hopt⟩, hoth⟩ := h'
-        cases v <;> simp [hasScalar, hb, hn, hs, hnull, hopt, hoth, subBoolHas, subLitHas]
+        obtain ⟨⟨⟨⟨⟨⟨hb, hn⟩, hs⟩, hnull⟩, hopt⟩, hvu⟩, hoth⟩ := h'
+        cases v <;> simp [hasScalar, hb, hn, hs, hnull, hopt, hvu, hoth, subBoolHas, subLitHas]
       · intro _; rfl
 
 /-- **Scalar fragment: assignability = inclusion.** For well-formed type vectors without object / list part and every
@@ -283,10 +288,11 @@ theorem scalar_subtype_iff_inclusion (n : Nat) (a b : SemType) (c : Ctx)
   have hwd : WF d := by
     unfold diff at hd
     simp only [Option.bind_eq_bind, Option.bind_eq_some_iff] at hd
-    obtain ⟨_, _, rn, hn, rs, hs, _, _, _, _, hd⟩ := hd
+    obtain ⟨_, _, rn, hn, rs, hs, _, _, _, _, rv, hv, hd⟩ := hd
     simp only [Option.pure_def, Option.some.injEq] at hd
     subst hd
-    exact ⟨subDiff_lit_wf _ _ hwa.1 hwb.1 _ hn, subDiff_lit_wf _ _ hwa.2 hwb.2 _ hs⟩
+    exact ⟨subDiff_lit_wf _ _ hwa.1 hwb.1 _ hn, subDiff_lit_wf _ _ hwa.2.1 hwb.2.1 _ hs,
+      subDiff_lit_wf _ _ hwa.2.2 hwb.2.2 _ hv⟩
   obtain ⟨r, hr, hiff⟩ := isEmpty_scalarOnly n d c hds hwd
   refine ⟨r, ?_, ?_⟩
   · unfold isSubtype
